@@ -60,7 +60,7 @@ func cmdRun(args []string) int {
 	only := fs.String("only", "", "run only entries whose name contains this")
 	slog := fs.String("solverlog", "", "prefix for solver transcripts")
 	tmo := fs.Int("qtimeout", 60, "per-query timeout (s)")
-	budget := fs.Int("budget", 0, "wall-clock budget in seconds (0: 600 quick / 2700 thorough)")
+	budget := fs.Int("budget", 0, "wall-clock budget in seconds (0: 1500 quick / 5400 thorough)")
 	noEvidence := fs.Bool("no-evidence", false, "do not write the evidence file")
 	verbose := fs.Bool("v", false, "verbose")
 	failFast := fs.Bool("fail-fast", false, "stop at the first violation (mutant regressions only; implies --no-evidence)")
@@ -75,9 +75,9 @@ func cmdRun(args []string) int {
 	seed, _ := strconv.Atoi(env("VERIF_SEED", "0"))
 	start := time.Now()
 	if *budget == 0 {
-		*budget = 600
+		*budget = 1500
 		if *tier == "thorough" {
-			*budget = 2700
+			*budget = 5400
 		}
 	}
 	inconclusive := func(reason string) int {
